@@ -6,6 +6,20 @@ import re
 import time
 
 
+def print(*a, **k):     # noqa: A001 - a reader that closes the pipe early must not change the verdict or the evidence
+    import builtins
+    import sys as _sys
+    try:
+        builtins.print(*a, **k)
+        _sys.stdout.flush()
+    except BrokenPipeError:
+        try:
+            _sys.stdout = open(os.devnull, "w")
+        except OSError:
+            pass
+
+
+
 class Report:
     def __init__(self, pid, tier, ctx):
         self.pid = pid
